@@ -137,7 +137,7 @@ def build_extract():
     """Extract the model and build the OCaml drivers when stale."""
     with Lock("coq"):
         coq_makefile()
-        p = run(["timeout", "900", "make", "-j16", "Model/World.vo", "Model/Multi.vo", "Model/Query.vo", "Model/SerdeC.vo"], cwd=COQ, check=False)
+        p = run(["timeout", "900", "make", "-j16", "Model/World.vo", "Model/Multi.vo", "Model/Query.vo", "Model/SerdeC.vo", "Model/Phys.vo"], cwd=COQ, check=False)
         if p.returncode != 0:
             raise Infra("model does not compile:\n" + p.stdout[-3000:])
         os.makedirs(EXTRACT, exist_ok=True)
